@@ -149,4 +149,4 @@ func init() {
 		Notes: []string{"worker goroutines of Visitor run under the default schedule in the history jobs; schedules are explored by the conc jobs"}})
 }
 
-func c10ConcJobs(tier string) []Job { return nil }
+func c10ConcJobs(tier string) []Job { return concJobs("C10", tier) }
